@@ -2723,9 +2723,7 @@ class C01(fw.Check):
         obs = unsqueeze(obs)
         if failure.startswith("DIFF[uncertainty_number]"):
             return "uncertainty_number_loaded_as_str"
-        # round 4: only the loss of a whole cardinality one of whose bounds was given as a bool
-        if failure.startswith("DIFF[bool_cardinality]"):
-            return "bool_cardinality_bound_lost"
+        # (round 4's bool_cardinality_bound_lost is fixed by f84846d: a DIFF[bool_cardinality] is a violation)
         # round 3: the readers cannot load what the writer wrote for Sections nested 255 or more
         # levels deep (libxml2's depth limit): only a refused LOAD of a plainly written chain that deep
         if failure.startswith("LOAD ") and " raised parser " in failure and case.get("stream") == "doc" \
